@@ -41,13 +41,38 @@ def cb_value(t, state):
     return float(t) * 0.5 + float(m[0, 0].real)
 
 
+class _Snap:
+    """independent copy of a HierarchyADOsState taken while the solver runs"""
+    def __init__(self, ado):
+        self.rho = ado.rho.copy()
+        self._ado_state = np.array(np.asarray(ado._ado_state), copy=True)
+
+
+def _snapshot(state):
+    return _Snap(state) if hasattr(state, "_ado_state") else state.copy()
+
+
 class CB:
+    """callback e_op: logs, at the moment it is called, the time, the digest
+    of the bytes of the state it was handed, the digest of its system part,
+    and an independent copy of the state.  These *live* records are the
+    reference everything stored in the result is compared with after the
+    run has finished (so an entry that aliases a solver buffer shows)."""
     def __init__(self):
         self.log = []
+        self.sys = []
+        self.snaps = []
 
     def __call__(self, t, state):
         self.log.append((float(t), _dig(state)))
+        self.sys.append(_dig(_sysstate(state)))
+        self.snaps.append(_snapshot(state))
         return cb_value(t, state)
+
+
+def _dig_raw(x):
+    """digest of the matrix entries only (no dims)"""
+    return hashlib.sha1(np.ascontiguousarray(x.full()).tobytes()).hexdigest()[:16]
 
 
 def _coef(t, *a, **kw):
@@ -125,82 +150,130 @@ def _fl_H():
     return [qt.sigmaz() * 0.5, [qt.sigmax() * 0.25, lambda t: np.cos(2 * np.pi * t)]]
 
 
-def run_solver(name, tlist, e_ops, options, ntraj=3, seed=11):
+INITS = {
+    "sesolve": ["ket", "ket_unnorm", "oper"],
+    "mesolve": ["dm", "dm_unnorm", "ket", "ket_unnorm"],
+    "mesolve_ket": ["ket"],
+    "brmesolve": ["ket", "ket_unnorm", "dm_unnorm"],
+    "krylovsolve": ["ket", "ket_unnorm"],
+    "fsesolve": ["ket", "ket_unnorm"],
+    "fmmesolve": ["dm", "dm_unnorm"],
+    "heomsolve": ["dm", "dm_unnorm"],
+    "mcsolve": ["ket"], "mcsolve_improved": ["ket"], "nm_mcsolve": ["ket"],
+    "ssesolve": ["ket"], "smesolve": ["dm", "ket"], "smesolve_het": ["dm"],
+}
+DEFAULT_INIT = {k: v[0] for k, v in INITS.items()}
+DEFAULT_INIT["mesolve"] = "dm"
+
+
+def solver_methods(name):
+    """every integration method registered for the solver class behind `name`
+    (read from the tree under test), minus the combinations that are not
+    applicable to the test problem."""
+    import qutip as qt
+    from qutip.solver.heom import HEOMSolver
+    from qutip.solver.floquet import FMESolver
+    from qutip.solver.nm_mcsolve import NonMarkovianMCSolver
+    cls = {"sesolve": qt.SESolver, "mesolve": qt.MESolver, "mesolve_ket": qt.MESolver,
+           "brmesolve": qt.BRSolver, "fmmesolve": FMESolver, "heomsolve": HEOMSolver,
+           "mcsolve": qt.MCSolver, "mcsolve_improved": qt.MCSolver,
+           "nm_mcsolve": NonMarkovianMCSolver, "ssesolve": qt.SSESolver,
+           "smesolve": qt.SMESolver, "smesolve_het": qt.SMESolver}.get(name)
+    if cls is None:
+        return [None]                 # krylovsolve / fsesolve choose their own
+    ms = sorted(cls.avail_integrators().keys())
+    if name == "nm_mcsolve":
+        ms = [m for m in ms if m != "diag"]        # rates are time dependent
+    return ms
+
+
+def initial_state(kind):
+    import qutip as qt
+    b0, b1 = qt.basis(2, 0), qt.basis(2, 1)
+    if kind == "ket":
+        return b0
+    if kind == "ket_unnorm":
+        return 2 * b0 + 0.5j * b1
+    if kind == "dm":
+        return qt.ket2dm(b0)
+    if kind == "dm_unnorm":
+        return 2 * qt.ket2dm(b0) + 0.5 * qt.ket2dm((b0 + b1).unit())
+    if kind == "oper":
+        return qt.qeye(2)
+    raise ValueError(kind)
+
+
+def run_solver(name, tlist, e_ops, options, init=None, ntraj=3, seed=11):
     import qutip as qt
     H = 0.5 * qt.sigmax() + 0.25 * qt.sigmaz()
-    psi0 = qt.basis(2, 0)
-    rho0 = qt.ket2dm(psi0)
+    st0 = initial_state(init or DEFAULT_INIT[name])
     sm = qt.sigmam()
     opt = dict(options)
     opt["progress_bar"] = ""
+    if opt.get("method") is None:
+        opt.pop("method", None)
+    if opt.get("method") == "krylov":
+        opt["krylov_dim"] = 2
     with warnings.catch_warnings():
         warnings.simplefilter("ignore")
         if name == "sesolve":
-            return qt.sesolve(H, psi0, tlist, e_ops=e_ops, options=opt)
-        if name == "mesolve":
-            return qt.mesolve(H, rho0, tlist, c_ops=[0.5 * sm], e_ops=e_ops, options=opt)
-        if name == "mesolve_ket":
-            return qt.mesolve(H, psi0, tlist, c_ops=[0.5 * sm], e_ops=e_ops, options=opt)
+            return qt.sesolve(H, st0, tlist, e_ops=e_ops, options=opt)
+        if name in ("mesolve", "mesolve_ket"):
+            return qt.mesolve(H, st0, tlist, c_ops=[0.5 * sm], e_ops=e_ops, options=opt)
         if name == "brmesolve":
-            return qt.brmesolve(H, psi0, tlist,
+            return qt.brmesolve(H, st0, tlist,
                                 a_ops=[[qt.sigmax(), lambda w: 0.1 * (w > 0)]],
                                 e_ops=e_ops, options=opt)
         if name == "krylovsolve":
-            return qt.krylovsolve(H, psi0, tlist, 2, e_ops=e_ops, options=opt)
+            return qt.krylovsolve(H, st0, tlist, 2, e_ops=e_ops, options=opt)
         if name == "fsesolve":
-            return qt.fsesolve(_fl_H(), psi0, tlist, T=1.0, e_ops=e_ops, options=opt)
+            return qt.fsesolve(_fl_H(), st0, tlist, T=1.0, e_ops=e_ops, options=opt)
         if name == "fmmesolve":
-            return qt.fmmesolve(_fl_H(), rho0, tlist, c_ops=[qt.sigmax()],
+            return qt.fmmesolve(_fl_H(), st0, tlist, c_ops=[qt.sigmax()],
                                 spectra_cb=[lambda w: 0.05 * (w > 0)], T=1.0,
                                 e_ops=e_ops, options=opt)
         if name == "heomsolve":
             from qutip.solver.heom import HEOMSolver, DrudeLorentzBath
-            key = ("heom", json.dumps({k: repr(v) for k, v in opt.items()}, sort_keys=True))
             bath = DrudeLorentzBath(qt.sigmaz(), lam=0.1, gamma=1.0, T=1.0, Nk=1)
             solver = HEOMSolver(H, bath, 1, options=opt)
-            return solver.run(rho0, tlist, e_ops=e_ops)
+            return solver.run(st0, tlist, e_ops=e_ops)
         opt["map"] = "serial"
         if name == "mcsolve":
-            return qt.mcsolve(H, psi0, tlist, c_ops=[0.7 * sm, 0.3 * qt.sigmaz()], e_ops=e_ops,
+            return qt.mcsolve(H, st0, tlist, c_ops=[0.7 * sm, 0.3 * qt.sigmaz()], e_ops=e_ops,
                               ntraj=ntraj, options=opt, seeds=seed)
         if name == "mcsolve_improved":
             opt["improved_sampling"] = True
-            return qt.mcsolve(H, psi0, tlist, c_ops=[0.7 * sm, 0.3 * qt.sigmaz()], e_ops=e_ops,
+            return qt.mcsolve(H, st0, tlist, c_ops=[0.7 * sm, 0.3 * qt.sigmaz()], e_ops=e_ops,
                               ntraj=ntraj, options=opt, seeds=seed)
         if name == "nm_mcsolve":
-            return qt.nm_mcsolve(H, psi0, tlist,
+            return qt.nm_mcsolve(H, st0, tlist,
                                  ops_and_rates=[(sm, lambda t: 0.4 - 0.3 * np.sin(t))],
                                  e_ops=e_ops, ntraj=ntraj, options=opt, seeds=seed)
         opt["dt"] = 0.125
         if name == "ssesolve":
-            return qt.ssesolve(H, psi0, tlist, sc_ops=[0.5 * sm, 0.25 * qt.sigmaz()],
+            return qt.ssesolve(H, st0, tlist, sc_ops=[0.5 * sm, 0.25 * qt.sigmaz()],
                                e_ops=e_ops, ntraj=ntraj, options=opt, seeds=seed)
         het = name == "smesolve_het"
-        return qt.smesolve(H, rho0, tlist, c_ops=[0.25 * qt.sigmaz()], sc_ops=[0.5 * sm],
+        return qt.smesolve(H, st0, tlist, c_ops=[0.25 * qt.sigmaz()], sc_ops=[0.5 * sm],
                            heterodyne=het, e_ops=e_ops, ntraj=ntraj, options=opt, seeds=seed)
 
 
-def reference(name, tlist, extra_opts):
-    """reference run of the same problem: all states stored, one callback
-    e_op that logs what it saw."""
-    key = (name, tuple(tlist), json.dumps(extra_opts, sort_keys=True, default=repr))
+def reference(name, tlist, method, init):
+    """reference run of the same problem (same method, same initial state)
+    with one callback e_op; the reference for state k is what that callback
+    was handed at tlist[k] *while the solver ran* (digest + independent
+    copy), never something read back from a result object."""
+    key = (name, tuple(tlist), method, init)
     if key in _CACHE:
         return _CACHE[key]
     cb = CB()
-    opt = dict(extra_opts)
-    opt.update({"store_states": True, "store_final_state": True})
-    if name == "heomsolve":
-        opt["store_ados"] = True
-    if name == "fmmesolve":
-        opt["store_floquet_states"] = True
-    r = run_solver(name, tlist, [cb], opt)
-    if name == "heomsolve":
-        objs = list(r.ado_states)
-    else:
-        objs = list(r.states)
-    ref = {"objs": objs, "digs": [_dig(s) for s in objs],
-           "sysdigs": [_dig(_sysstate(s)) for s in objs], "cblog": list(cb.log),
-           "flo": [_dig(s) for s in r.floquet_states] if name == "fmmesolve" else None}
+    opt = {"store_states": False, "store_final_state": False, "method": method}
+    r = run_solver(name, tlist, [cb], opt, init)
+    ref = {"objs": list(cb.snaps), "digs": [d for _, d in cb.log], "sysdigs": list(cb.sys),
+           "rawsys": [_dig_raw(_sysstate(x)) for x in cb.snaps],
+           "times": [t for t, _ in cb.log]}
+    if ref["times"] != [float(t) for t in tlist]:
+        ref["broken"] = "the reference callback was not called once per time"
     _CACHE[key] = ref
     return ref
 
@@ -218,6 +291,9 @@ def check_single(name, tlist, form, o, r, items, ref, bad, obs_out=None):
     (signature, message).  obs_out (dict) receives the canonical structure
     for the comparison with the model."""
     n = len(tlist)
+    if ref.get("broken"):
+        bad.append(("callback-times", ref["broken"]))
+        return
     idx = {d: k for k, d in enumerate(ref["digs"])}
     sidx = {d: k for k, d in enumerate(ref["sysdigs"])}
     heom = name == "heomsolve"
@@ -303,6 +379,11 @@ def check_single(name, tlist, form, o, r, items, ref, bad, obs_out=None):
                 ado = ("Obj", [idx.get(d, -1) for d in ad])
                 if ad != (ref["digs"] if st else []):
                     bad.append(("ado_states", "ado_states[k] is not the ADO state at tlist[k]"))
+                if st and [_dig_raw(a.extract(0)) for a in r.ado_states] != ref["rawsys"]:
+                    bad.append(("ado_states-extract",
+                                "ado_states[k].extract(0) is not the system state at tlist[k]"))
+                if st and [_dig_raw(a.rho) for a in r.ado_states] != [_dig_raw(x) for x in states]:
+                    bad.append(("ado_states-rho", "ado_states[k].rho differs from states[k]"))
                 fa = r.final_ado_state
                 if fa is None:
                     fado = "PyNone"
@@ -322,10 +403,13 @@ def check_single(name, tlist, form, o, r, items, ref, bad, obs_out=None):
     if name == "fmmesolve":
         fl = r.floquet_states
         if o.get("store_floquet_states"):
-            if fl is None or [_dig(s) for s in fl] != ref["flo"]:
+            # the Floquet-basis state k, converted at tlist[k], must be
+            # bit-for-bit the laboratory-basis state the e_ops saw at tlist[k]
+            conv = [] if fl is None else [
+                _dig(r.floquet_basis.from_floquet_basis(x, t)) for x, t in zip(fl, tlist)]
+            if fl is None or len(fl) != n or conv != ref["sysdigs"]:
                 bad.append(("floquet_states", "floquet_states[k] is not the Floquet-basis state k"))
-            flo = ("Obj", [ref["flo"].index(_dig(s)) if _dig(s) in ref["flo"] else -1
-                           for s in (fl or [])])
+            flo = ("Obj", [sidx.get(d, -1) for d in conv])
         else:
             flo = "PyNone"
             if fl is not None:
